@@ -25,7 +25,7 @@ Definition qpowi (a : Q) (e : Z) : Q :=
   | Zneg p => Qred (Qpower_positive (Qinv a) p)
   end.
 
-Definition CFq : CF Q := mkCF Q qadd qsub qmul qdiv qlt qge qpowi 1%Q.
+Definition CFq : CF Q := mkCF Q qadd qsub qmul qdiv qlt qge qeqb qpowi 1%Q.
 
 (* Ratio::to_integer: truncation toward zero *)
 Definition q_to_integer (a : Q) : Z := Z.quot (Qnum a) (Zpos (Qden a)).
